@@ -12,7 +12,7 @@ CONSTANTS
   PersistMkdir = TRUE
   LoaderExact = TRUE
   RefreshTemp = "leave"
-  Faults = {}
+  Faults = {"vanish", "write"}
   Cleanup = "temp"
 INIT InitR
 NEXT NextR
